@@ -20,7 +20,6 @@ RULES = [
 
 UNIT = dict(
     name="batch_complete",
-    wip=True,
     props=["C04", "C08"],
     prelude=["core_types.rs", "str_ext.rs", "engine.rs", "sys_model.rs"],
     assumptions=[
